@@ -70,12 +70,15 @@ def checkPath (j : Json) : Except String (Option String) := do
     let r := merkleHelper HL q
     [String.ofList r.1, String.ofList r.2])
   let helperD := if helpers == want then none else some s!"field=merkleHelper model={want} impl={helpers}"
+  -- the message the client-side builder (`CreateMsgPostFile`) makes for the same plain paths
+  let client : List (List String) := (j.getObjValAs? (List (List String)) "client").toOption.getD want
+  let clientD := if client == want then none else some s!"field=clientMessage model={want} impl={client}"
   return allSome [
     cmpField "merklePath" (String.ofList m) mp,
     cmpField "childHash" (String.ofList (HL c)) ch,
     cmpField "addToMerkle" (String.ofList (addToMerkle HL m (HL c))) added,
     cmpField "joined" (String.ofList (merklePath HL (p ++ '/' :: c))) joined,
     cmpField "trailing" (String.ofList (merklePath HL (p ++ ['/']))) trailing,
-    helperD]
+    helperD, clientD]
 
 end Driver.Filetree
